@@ -70,3 +70,13 @@ impl fn_graph::DataAccessDyn for Acc {
         self.writes.iter().map(|k| tid(*k)).collect()
     }
 }
+
+/// Drives a future to completion on this thread: futures' `block_on`, or - with VERIF_EXECUTOR=tokio - a tokio
+/// current-thread runtime (whose per-task cooperative budget applies to every tokio primitive polled inside).
+pub fn block_on<F: std::future::Future>(f: F) -> F::Output {
+    if std::env::var("VERIF_EXECUTOR").as_deref() == Ok("tokio") {
+        tokio::runtime::Builder::new_current_thread().build().expect("tokio runtime").block_on(f)
+    } else {
+        futures::executor::block_on(f)
+    }
+}
